@@ -18,7 +18,7 @@ ASSUMPTIONS = [
     "stray files that do not have the <2>/<rest> layout are outside the property",
 ]
 MONITORS = "independent before/after os.walk listing of the store compared with a set-difference model; return value; byte snapshot of survivors"
-REQUIRED_COUNTERS = ["used_as/generator", "used_as/iterator", "gc_calls", "expanding_calls_with_used_dir", "dry_calls", "readonly_calls", "real_removals", "foreign_algo_ids_in_used"]
+REQUIRED_COUNTERS = ["path_spelling/trailing-slash", "path_spelling/dotdot", "nfc_nfd_sibling_listings", "used_as/generator", "used_as/iterator", "gc_calls", "expanding_calls_with_used_dir", "dry_calls", "readonly_calls", "real_removals", "foreign_algo_ids_in_used"]
 
 
 def _put(root, oid, data, mode):
@@ -72,6 +72,11 @@ def run_shard(ctx):
                     for i, o in enumerate(members):
                         rel = gen.name(rng, odd=0.3) if rng.random() < 0.6 else gen.name(rng) + "/" + gen.name(rng)
                         listing[f"{rel}{i}"] = o
+                    others = [o for o in file_oids if o not in members]
+                    if len(others) >= 2 and rng.random() < 0.3:
+                        # two canonically equivalent names (composed / decomposed) listing two files that nothing else lists
+                        listing["d/caf\u00e9.txt"], listing["d/cafe\u0301.txt"] = others[0], others[1]
+                        res.count("nfc_nfd_sibling_listings")
                     if rng.random() < 0.2:
                         listing["ghost"] = H("md5", b"ghost-not-in-store" + bytes([rng.randrange(256)]))
                     raw = canonical_dir_bytes(listing)
@@ -115,7 +120,15 @@ def run_shard(ctx):
                 used.append(env.HI(algo, H("md5", rng.randbytes(8))))  # absent id
             rng.shuffle(used)
 
-            odb = env.odb_of_class(cls, root, hash_name=algo)
+            # the store may be opened through a legal but non-canonical spelling of its path
+            spelling = rng.choice(["canonical", "canonical", "trailing-slash", "double-slash", "dot", "dotdot"])
+            res.count(f"path_spelling/{spelling}")
+            pdir, pbase = os.path.split(root)
+            opened = {"canonical": root, "trailing-slash": root + "/", "double-slash": pdir + "//" + pbase, "dot": pdir + "/./" + pbase,
+                      "dotdot": os.path.join(pdir, "x", "..", pbase)}[spelling]
+            if spelling == "dotdot":
+                os.makedirs(os.path.join(pdir, "x"), exist_ok=True)
+            odb = env.odb_of_class(cls, opened, hash_name=algo)
             odb.read_only = read_only
             cache_odb = env.odb_of_class("local", croot, hash_name=algo) if separate_cache else None
 
@@ -146,7 +159,7 @@ def run_shard(ctx):
             if read_only:
                 res.count("readonly_calls")
             cfg = {
-                "class": cls, "algo": algo, "shallow": shallow, "dry": dry, "read_only": read_only,
+                "path_spelling": spelling, "class": cls, "algo": algo, "shallow": shallow, "dry": dry, "read_only": read_only,
                 "separate_cache": separate_cache, "present": len(present), "used": len(used),
                 "used_dirs": len(used_dirs), "expected_removed": len(expected_removed), "unloadable_used_dirs": len(unloadable),
             }
